@@ -104,6 +104,19 @@ func buildWorker(flavor string) (string, error) {
 	default:
 		return "", fmt.Errorf("unknown flavour %q", flavor)
 	}
+	if altRepo != "" {
+		// same harness, other copy of the repository: a private go.mod with the replace paths rewritten
+		mod, err := os.ReadFile(filepath.Join(verifDir, "harness", "go.mod"))
+		if err != nil {
+			return "", err
+		}
+		dir := filepath.Join(workDir, "alt", fmt.Sprint(os.Getpid()))
+		os.MkdirAll(dir, 0o755)
+		os.WriteFile(filepath.Join(dir, "go.mod"), []byte(strings.ReplaceAll(string(mod), "=> /repo", "=> "+altRepo)), 0o644)
+		sum, _ := os.ReadFile(filepath.Join(verifDir, "harness", "go.sum"))
+		os.WriteFile(filepath.Join(dir, "go.sum"), sum, 0o644)
+		args = append(args, "-modfile="+filepath.Join(dir, "go.mod"))
+	}
 	args = append(args, "./cmd/worker")
 	cmd := exec.Command(gobin, args...)
 	cmd.Dir = filepath.Join(verifDir, "harness")
@@ -125,17 +138,23 @@ func cleanupBuilt() {
 }
 
 var fatalRe = regexp.MustCompile(`(?m)^(fatal error: .*|panic: .*|unexpected fault address .*|SIGSEGV: .*|SIGBUS: .*|SIGILL: .*|runtime: .*|\[signal .*)$`)
+var nativeRe = regexp.MustCompile(`(?m)^(_[a-z_0-9]+)\(\)$`)
+var addrRe =regexp.MustCompile(`0x[0-9a-f]+`)
 var frameRe = regexp.MustCompile(`(?m)^(github\.com/bytedance/sonic[^\s(]*|main\.[^\s(]*)`)
 
 // classify extracts a crash signature from a worker's stderr.
 func classify(stderr string) (sig string, frame string) {
 	m := fatalRe.FindAllString(stderr, 4)
-	sig = strings.Join(m, " | ")
+	sig = addrRe.ReplaceAllString(strings.Join(m, " | "), "0x?")
 	if sig == "" {
 		sig = "no fatal line"
 	}
 	if f := frameRe.FindString(stderr); f != "" {
 		frame = f
+	}
+	if nf := nativeRe.FindStringSubmatch(stderr); nf != nil {
+		// innermost frame of a native (SIMD) routine, as the loader's symbol table names it
+		frame = "native " + nf[1] + " <- " + frame
 	}
 	return
 }
@@ -225,8 +244,18 @@ func runBatch(r *Run, batch int, dir string) *BatchResult {
 			continue
 		}
 		sig, frame := classify(stderr)
+		cur := ""
+		if cb, err := os.ReadFile(logPath + ".cur"); err == nil && len(cb) > 0 {
+			cur = "RUNNING: " + string(cb) + "\n"
+		}
 		res.Crashes = append(res.Crashes, Violation{Run: r.Name, Batch: batch, Case: last, API: "process",
-			Msg: fmt.Sprintf("worker died (%v): %s @ %s", werr, sig, frame), Detail: head(stderr, 6000)})
+			Msg: fmt.Sprintf("worker died (%v): %s @ %s", werr, sig, frame), Detail: cur + head(stderr, 6000)})
+		if lf, err := os.OpenFile(logPath, os.O_APPEND|os.O_WRONLY, 0o644); err == nil {
+			// triage aid: the crash as a line of the batch log (ignored by parseLog)
+			xb, _ := json.Marshal(map[string]interface{}{"case": last, "sig": sig, "frame": frame, "running": strings.TrimSpace(cur)})
+			lf.WriteString("X " + string(xb) + "\n")
+			lf.Close()
+		}
 		res.Restarts++
 		if last < start && attempt > 0 {
 			// died before reaching any new case: give up on this batch
